@@ -19,7 +19,7 @@ args = ap.parse_args()
 
 d = os.path.abspath(args.dir)
 meta = json.load(open(os.path.join(d, 'meta.json')))
-props = (args.props or meta['property']).split(',')
+props = (args.props or meta.get('check_with') or meta['property']).split(',')
 ENV = dict(os.environ, GOFLAGS='-mod=mod', GOPROXY='off', GOSUMDB='off', GOTOOLCHAIN='local')
 
 
